@@ -16,7 +16,7 @@ META = {
     'assumptions': ['sequential calls only (as stated)', 'audit events are attributed by the calling frame module kingdon.codegen'],
 }
 SHARD_DEADLINE = {'quick': 300, 'thorough': 3300}
-KINDS = ['int', 'float', 'frac', 'array', 'array2', 'listarr', 'sympy', 'mixed', 'same-values']
+KINDS = ['int', 'float', 'frac', 'array', 'array2', 'listarr', 'sympy', 'mixed', 'same-values', 'sympy-zero']
 REG = ['reg_numeric', 'reg_symbolic', 'reg_nested']
 ALL = ops.BINARY + ops.UNARY + REG
 
@@ -77,6 +77,10 @@ def values(rng, alg, keys, kind, tag):
         return [np.array([rng.randint(1, 9) / 2.0 for _ in range(2)]) for _ in keys]
     if kind == 'sympy':
         return [sympy.Symbol(f'{tag}{k}') for k in keys]
+    if kind == 'sympy-zero':
+        # symbolic coefficients one of which vanishes symbolically (the stored key pattern is what it is, whatever the values simplify to)
+        t = sympy.Symbol(f'{tag}t')
+        return [(t - t if i == 0 else sympy.Integer(0)) if i < 2 and len(keys) > 1 and i == (len(keys) - 1) % 2 else sympy.Symbol(f'{tag}{k}') for i, k in enumerate(keys)]
     if kind == 'mixed':
         return [sympy.Symbol(f'{tag}{k}') if i % 2 else rng.randint(1, 5) for i, k in enumerate(keys)]
     raise KeyError(kind)
@@ -307,7 +311,7 @@ def one_case(ctx, ge, alg, regs, cfg, name, op):
     rng.shuffle(kinds)
     kinds.insert(rng.randint(1, 3), 'raising-None')
     for j, kind in enumerate(kinds):
-        if op in REG and kind in ('sympy', 'mixed') and op != 'reg_symbolic':
+        if op in REG and kind in ('sympy', 'mixed', 'sympy-zero') and op != 'reg_symbolic':
             continue    # numerically registered functions are documented for numeric input; symbolic operands are another use
         if op in REG and rng.random() < 0.35:
             # another function is registered in between under a name that is already in use on this algebra (a notebook cell run again):
@@ -323,7 +327,7 @@ def one_case(ctx, ge, alg, regs, cfg, name, op):
             k2 = [gen.random_subset(rng, canon, 4, 1) for _ in range(2)]
             ctx.guarded(30, lambda: getattr(alg, o2)(*[gen.mv_from(alg, ks, [1] * len(ks)) for ks in k2]))
             ctx.count('interleaved_other_calls')
-        in_thread = kind not in ('raising-None', 'sympy', 'mixed') and rng.random() < 0.3
+        in_thread = kind not in ('raising-None', 'sympy', 'mixed', 'sympy-zero') and rng.random() < 0.3
         st, out, d, growth = observe(kind, f'q{j}', in_thread=in_thread)
         if in_thread:
             ctx.count('repeat_calls_from_another_thread')
